@@ -119,7 +119,7 @@ AddExtras(n, k, v)    == On("add_extras") /\ Step(AddExtrasF(st, n, k, v), O("ad
 
 Next == TLCGet("level") < MaxLevel /\
   \/ \E nm \in NameSet : Create(nm)
-  \/ \E kind \in {"xml", "json"}, shape \in ImportShapes : Import(kind, shape)
+  \/ \E kind \in {"xml", "json", "json-null-ids", "legacy-json"}, shape \in ImportShapes : Import(kind, shape)     \* a JSON document may leave ids null: fresh ids are made
   \/ \E p, c \in Nodes :
        \/ \E i \in {NOIDX} \cup (0..MaxN) : AddChild(p, c, i)
        \/ RemoveChild(p, c) \/ RemoveChildFail(p, c)
